@@ -24,7 +24,7 @@
 // Besides the Coq file a JSON side file lists, per method and path, the critical sections in order
 // (owner, mode, fields read / written inside), the guarded accesses outside any section and the calls of
 // locking methods: the facts behind the obligation "one atomic step of the model = one critical section"
-// (LockModel.step_ok, generated Lemma extracted_atomic_steps).
+// (AtomicModel.step_ok, generated Lemma extracted_atomic_steps).
 package main
 
 import (
@@ -879,16 +879,6 @@ func main() {
 	sb.WriteString("(* methods that rely on their declared multi-step shape *)\n")
 	sb.WriteString("Definition multistep := Eval vm_compute in map (fun m => (mtype m, mname m)) (filter (fun m => negb (forallb atomic_path (mpaths m))) methods).\nPrint multistep.\n\n")
 	sb.WriteString("Lemma extracted_well_locked : forallb well_locked methods = true.\nProof. vm_compute. reflexivity. Qed.\n\n")
-	sb.WriteString("Lemma extracted_atomic_steps : forallb step_ok methods = true.\nProof. vm_compute. reflexivity. Qed.\n\n")
-	sb.WriteString(`(* every method the models treat as ONE atomic step executes, along each of its paths, nothing at all, one call
-   of a locking method of its own object, or exactly one critical section that contains all its accesses to
-   guarded fields (reads only, when the section is a read section) *)
-Theorem extracted_one_section : forall m p, In m methods -> In p (mpaths m) ->
-  multi_step (mtype m) (mname m) = None -> one_section (flatc [] p).
-Proof. exact (step_ok_one_section methods extracted_atomic_steps). Qed.
-Print Assumptions extracted_one_section.
-
-`)
 	sb.WriteString(`(* the generic theorem instantiated with the extracted methods: any number of threads, each calling any
    sequence of these methods along any of their paths *)
 Theorem extracted_threads_safe : forall (threads : list (list (list ev))) (st : state LM),
@@ -902,6 +892,16 @@ Theorem extracted_threads_safe : forall (threads : list (list (list ev))) (st : 
   ((exists i l, nth_error (snd st) i = Some (Some l)) -> exists i st' e, gstep st i tt = Some (st', e)).
 Proof. intros threads st. apply (well_locked_threads_safe methods). exact extracted_well_locked. Qed.
 Print Assumptions extracted_threads_safe.
+`)
+	sb.WriteString("Lemma extracted_atomic_steps : forallb step_ok methods = true.\nProof. vm_compute. reflexivity. Qed.\n\n")
+	sb.WriteString(`(* every method the models treat as ONE atomic step executes, along each of its paths, nothing at all, one call
+   of a locking method of its own object, or exactly one critical section that contains all its accesses to
+   guarded fields (reads only, when the section is a read section) *)
+Theorem extracted_one_section : forall m p, In m methods -> In p (mpaths m) ->
+  multi_step (mtype m) (mname m) = None -> one_section (flatc [] p).
+Proof. exact (step_ok_one_section methods extracted_atomic_steps). Qed.
+Print Assumptions extracted_one_section.
+
 `)
 	fmt.Fprintf(&sb, "\n(* %d methods *)\n", len(items))
 	if err := os.WriteFile(*out, []byte(sb.String()), 0o644); err != nil {
